@@ -8,6 +8,8 @@ import os, sys, re, json, shutil, tempfile
 import vlib
 sys.path.insert(0, os.path.join(vlib.VERIF, 'tools'))
 import gen_c09_if as G
+import gen_c09_macro as M
+import hashlib
 import tr_c07_limits
 
 LEVEL = 'proof'
@@ -230,6 +232,136 @@ def run_if(chk, c2m, model, d, quick):
     return len(defined), findings, model_breaks
 
 
+# ------------------------------------------------------------------ macro expansion / conditionals
+def pp_outputs(c2m, text, d, name):
+    """token lists per tool (after the C09_START marker handling is done by the caller)"""
+    p = os.path.join(d, name)
+    open(p, 'w').write(text)
+    outs = {}
+    for tool, cmd in (('c2m', [c2m, '-E']), ('gcc', ['gcc', '-E', '-P', '-w', '-std=c11']),
+                      ('clang', ['clang', '-E', '-P', '-w', '-std=c11'])):
+        rc, out, err = vlib.sh(cmd + [p], timeout=120, cwd=d)
+        outs[tool] = (rc, M.tokenize(M.strip_line_markers(out)), err[-300:])
+    return outs
+
+
+def case_file(cases):
+    s = ['C09_START ;\n']
+    for i, text in cases:
+        s.append('C09_CASE_%d ;\n' % i)
+        s.append(text)
+    return ''.join(s)
+
+
+def compare_cases(c2m, cases, d, tag):
+    """cases: [(index, text)] -> {index: ('ok'|'spacing'|'unspecified'|'diff', c2m tokens, gcc tokens)}"""
+    outs = pp_outputs(c2m, case_file(cases), d, tag + '.c')
+    split = {t: M.split_cases(outs[t][1]) for t in outs}
+    res = {}
+    want = [i for i, _ in cases]
+    if any(outs[t][0] != 0 or split[t] is None or sorted(split[t]) != sorted(want) for t in ('gcc', 'clang')):
+        # a reference tool rejects something or lost the marker structure: evaluate one by one
+        if len(cases) == 1:
+            return {cases[0][0]: ('unspecified', [], [])}
+        for c in cases:
+            res.update(compare_cases(c2m, [c], d, tag))
+        return res
+    if split['c2m'] is None or sorted(split['c2m']) != sorted(want):
+        if len(cases) == 1:
+            toks = outs['c2m'][1]
+            return {cases[0][0]: ('diff', toks, split['gcc'][cases[0][0]])}
+        for c in cases:
+            res.update(compare_cases(c2m, [c], d, tag))
+        return res
+    for i in want:
+        g, cl, c = split['gcc'][i], split['clang'][i], split['c2m'][i]
+        if g != cl:
+            res[i] = ('unspecified', c, g)
+        elif c == g:
+            res[i] = ('ok', c, g)
+        elif M.squash(c) == M.squash(g):
+            res[i] = ('spacing', c, g)
+        else:
+            res[i] = ('diff', c, g)
+    return res
+
+
+def shrink_pp_case(c2m, text, d):
+    lines = text.split('\n')
+
+    def fails(sub):
+        r = compare_cases(c2m, [(0, '\n'.join(sub) + '\n')], d, 'shr')
+        return r[0][0] == 'diff'
+    if not fails(lines):
+        return text
+    lines = vlib.shrink_list(lines, fails, max_steps=200)
+    # then token-wise inside the non-directive lines (unbalanced results are rejected by gcc -> not failing)
+    for li in range(len(lines)):
+        if lines[li].lstrip().startswith('#') or len(lines[li]) < 12:
+            continue
+        words = lines[li].split(' ')
+
+        def fails_w(ws, li=li):
+            return fails(lines[:li] + [' '.join(ws)] + lines[li + 1:])
+        lines[li] = ' '.join(vlib.shrink_list(words, fails_w, max_steps=120))
+    return '\n'.join(lines) + '\n'
+
+
+def run_expand(chk, c2m, d, quick):
+    cases = []
+    feats = {}
+    cp = os.path.join(vlib.VERIF, 'corpus', 'c09_pp')
+    idx = 0
+    if os.path.isdir(cp):
+        for f in sorted(os.listdir(cp)):
+            cases.append((idx, open(os.path.join(cp, f)).read()))
+            feats[idx] = ['corpus:' + f]
+            idx += 1
+    nmac, ncond = (500, 150) if quick else (8000, 2000)
+    for k in range(nmac):
+        rng = chk.rng('macro%d' % k)
+        text, fs = M.gen_macro_case(rng, idx)
+        cases.append((idx, text))
+        feats[idx] = ['macro'] + fs
+        idx += 1
+    for k in range(ncond):
+        rng = chk.rng('cond%d' % k)
+        text, fs = M.gen_cond_case(rng, idx)
+        cases.append((idx, text))
+        feats[idx] = ['cond'] + fs
+        idx += 1
+    texts = dict(cases)
+    results = {}
+    B = 60
+    for off in range(0, len(cases), B):
+        results.update(compare_cases(c2m, cases[off:off + B], d, 'pp%d' % off))
+    bad = []
+    for i, (st, c, g) in sorted(results.items()):
+        kind = feats[i][0]
+        chk.dist('pp_outcome', kind.split(':')[0] + ':' + st)
+        if st == 'unspecified':
+            continue
+        chk.count('pp:' + texts[i], nontrivial=len(g) >= 3)
+        for f in feats[i][1:]:
+            chk.dist('pp_features', f)
+        if st == 'diff':
+            bad.append(i)
+    for i in [c[0] for c in cases if c[0] in results and results[c[0]][0] == 'ok'][:3]:
+        chk.sample('pp case: ' + texts[i].replace('\n', ' \\n ')[:300])
+    seen = set()
+    for i in bad[:5]:
+        small = shrink_pp_case(c2m, texts[i], d)
+        r = compare_cases(c2m, [(0, small)], d, 'shr')[0]
+        if small in seen:
+            continue
+        seen.add(small)
+        chk.finding('pp:' + hashlib.sha1(small.encode()).hexdigest()[:12],
+                    dict(kind='pp', text=small, original=texts[i], c2m=' '.join(r[1]), gcc=' '.join(r[2])),
+                    'preprocessing of %s gives tokens `%s` under c2m -E but `%s` under gcc/clang -E'
+                    % (json.dumps(small)[:400], ' '.join(r[1])[:200], ' '.join(r[2])[:200]))
+    return len(results), bad
+
+
 # ------------------------------------------------------------------ driver
 def run(chk):
     quick = chk.tier == 'quick'
@@ -241,10 +373,16 @@ def run(chk):
                                 'gcc -E as the reference C11 preprocessor (cross-checked against the Coq C11If specification)',
                                 'tools/tr_c07_limits.py: coq/C07/Limits.v re-checked against c2mir/x86_64/cx86_64.h']
     with Scratch() as d:
+        mine = os.path.join(d, 'c2m')      # the shared build cache may be pruned by concurrent checks
+        shutil.copy(c2m, mine)
+        c2m = mine
         n_if, if_findings, if_model_breaks = run_if(chk, c2m, model, d, quick)
+        n_pp, pp_bad = run_expand(chk, c2m, d, quick)
     chk.cov['rule'] = ('#if: each generated controlling expression to which the C11 model gives a value is run as three '
                        'directives (group selection; (e)==predicted value; 0*(e)-1<0 for the type) under c2m -E and gcc -E '
-                       'and compared with the extracted PpIf and C11If models; non-trivial = at least 3 nodes; distinct by text')
+                       'and compared with the extracted PpIf and C11If models; non-trivial = at least 3 nodes; distinct by text.  '
+                       'pp: seeded macro sets + uses and nested conditional structures, token stream of c2m -E vs gcc -E -P, '
+                       'counted only where gcc and clang agree (otherwise C11 leaves the nesting unspecified); non-trivial = at least 3 output tokens')
     tie_broken = bool(lim) or not r['ok'] or bool(if_model_breaks)
     if tie_broken and not chk.violations:
         if lim:
@@ -268,5 +406,12 @@ def replay(chk, path):
             bad = check_div0(chk, c2m, [(j['prefix'], j['text'])], d)
             print(bad or 'diagnosed by both')
             return 1 if bad else 0
+        if j.get('kind') == 'pp':
+            r = compare_cases(c2m, [(0, j['text'])], d, 'rp')[0]
+            print(j['text'])
+            print('c2m  :', ' '.join(r[1]))
+            print('gcc  :', ' '.join(r[2]))
+            print('verdict:', r[0])
+            return 1 if r[0] == 'diff' else 0
     print('nothing to replay in', path)
     return 1
